@@ -5,6 +5,7 @@ import AidlVerif.Props.C05
 import AidlVerif.Props.C10
 import AidlVerif.Props.C09
 import AidlVerif.Props.C08
+import AidlVerif.Props.C06
 
 /-
   Model driver: one JSON case per input line, one JSON verdict per output line.
@@ -146,8 +147,24 @@ def handleC08 (c : ValCtx) (v : Verdict) : Verdict :=
         else none
   { v with nontrivial := !conts.isEmpty, dist := conts.foldl bump v.dist }
 
+def handleC06 (c : ValCtx) (v : Verdict) : Verdict :=
+  let v := v.addCorr "C06" (decide (c.model.map Spec.C06.proj = c.out.map Spec.C06.proj))
+  let v := v.addSpec "C06" (c.out.all (Spec.C06.holdsFile c.defined))
+  let v := v.addAssume "C06" (c.stage1.all fun fr => match groupsOf c fr with
+    | some (g, _) => decide (Props.C06.Fresh g)
+    | none => true)
+  let reps := c.out.flatMap fun fr => match fr.ast with
+    | none => []
+    | some b =>
+      let R := Spec.C06.resolvedKeys b
+      (Spec.C06.importReports R c.defined b.imports).map (fun r => s!"import/{reprStr r.1}/{r.2.2.isSome}")
+      ++ (Spec.C06.declReports R b.imports b.declaredParcelables).map (fun r => s!"decl/{reprStr r.1}/{r.2.2.isSome}")
+  let n := (c.out.flatMap fun fr => match fr.ast with | none => [] | some b => b.imports ++ b.declaredParcelables).length
+  { v with nontrivial := n > 0, dist := reps.foldl bump v.dist }
+
 def valHandlers : List (String × (ValCtx → Verdict → Verdict)) :=
-  [("C07", handleC07), ("C05", handleC05), ("C10", handleC10), ("C09", handleC09), ("C08", handleC08)]
+  [("C07", handleC07), ("C05", handleC05), ("C10", handleC10), ("C09", handleC09), ("C08", handleC08),
+   ("C06", handleC06)]
 
 def opValidate (prop : String) (j : Json) : R Verdict := do
   let impl ← fld j "impl"
